@@ -223,9 +223,9 @@ theorem adoption_eq_sync (E : Env σ) (g : Block) (s0 : σ) (pre own bs : List B
         rw [this] at h1; omega
     -- the reset node has the core of np
     have hreset : resetTo n np.head.height =
-        some ({ head := np.head, cur := np.cur, canon := np.canon, hdr := np.hdr, txIdx := n.txIdx, certs := n.certs,
+        .ok ({ head := np.head, cur := np.cur, canon := np.canon, hdr := np.hdr, txIdx := n.txIdx, certs := n.certs,
                 vers := fun x => if np.head.height < x then none else n.vers x }, (blocks own).flatMap (·.txs)) := by
-      unfold resetTo
+      unfold resetTo ensureCanonical
       simp only [h2, hP1, hcount, hrcanon, hrhdr, hrrev]
     -- P4: the fork blocks are added alike
     obtain ⟨a', m', ha', hm', e1, e2, e3, e4⟩ := syncFrom_core E bs
@@ -348,8 +348,8 @@ theorem adoption_stores_certs (E : Env σ) (g : Block) (s0 : σ) (pre own bs : L
   -- the node reached is the sync of `bs` from the reset node
   unfold applyFork at h ⊢
   cases hr : resetTo n (lastBlock g pre).height with
-  | none => rw [hr] at h; simp at h
-  | some r =>
+  | error n1 => rw [hr] at h; simp at h
+  | ok r =>
     obtain ⟨n0, rev⟩ := r
     rw [hr] at h; simp only at h ⊢
     have hok : (applyBlocks E fixed n0 bs).2 = .ok := by
@@ -391,22 +391,40 @@ theorem applyBlocks_ok_sync (E : Env σ) (l : List Bundle) (a : Node σ) (hk : (
       | none => rw [h2] at hk; simp at hk
       | some n2 => rw [h2] at hk; simp only at hk ⊢; exact ih n2 hk
 
+theorem ensureCanonical_certs {n n1 : Node σ} {h : Nat} (he : ensureCanonical n h = some n1) :
+    n1.certs = n.certs ∧ n1.vers = n.vers ∧ n1.head = n.head ∧ n1.cur = n.cur := by
+  unfold ensureCanonical at he
+  split at he
+  · injection he with he; subst he; exact ⟨rfl, rfl, rfl, rfl⟩
+  · split at he
+    · split at he
+      · injection he with he; subst he; exact ⟨rfl, rfl, rfl, rfl⟩
+      · cases he
+    · cases he
+
+theorem resetTo_ok_certs {n n0 : Node σ} {c : Nat} {rev : List Nat} (hr : resetTo n c = .ok (n0, rev)) :
+    n0.certs = n.certs := by
+  unfold resetTo at hr
+  cases he : ensureCanonical n c with
+  | none => rw [he] at hr; cases hr
+  | some n1 =>
+    rw [he] at hr; simp only at hr
+    cases hv : n1.vers c with
+    | none => rw [hv] at hr; cases hr
+    | some s =>
+      rw [hv] at hr; simp only [Except.ok.injEq, Prod.mk.injEq] at hr
+      rw [← hr.1]; exact (ensureCanonical_certs he).1
+
 /-- the certificate index after a completed `applyFork` is the old one plus the non-empty fork certificates -/
 theorem applyFork_ok_certs (E : Env σ) (n : Node σ) (c : Nat) (bs : List Bundle)
     (h : (applyFork E fixed n c bs).2.1 = .ok) : (applyFork E fixed n c bs).1.certs = certsW bs n.certs := by
   unfold applyFork at h ⊢
   cases hr : resetTo n c with
-  | none => rw [hr] at h; simp at h
-  | some r =>
+  | error n1 => rw [hr] at h; simp at h
+  | ok r =>
     obtain ⟨n0, rev⟩ := r
     rw [hr] at h; simp only at h ⊢
-    rw [syncFrom_certs E bs n0 _ (applyBlocks_ok_sync E bs n0 h)]
-    unfold resetTo at hr
-    cases hv : n.vers c with
-    | none => rw [hv] at hr; cases hr
-    | some s =>
-      rw [hv] at hr; simp only [Option.some.injEq, Prod.mk.injEq] at hr
-      rw [← hr.1]
+    rw [syncFrom_certs E bs n0 _ (applyBlocks_ok_sync E bs n0 h), resetTo_ok_certs hr]
 
 theorem certsW_congr (bs : List Bundle) (m m' : Nat → Option Cert) (y : Nat) (h : m y = m' y) :
     certsW bs m y = certsW bs m' y := by
@@ -493,6 +511,39 @@ theorem applyFork_nonNil_rule_stores_empty_cert :
       [⟨⟨2, 2, 1, false, false, 5, [10]⟩, none⟩]).getD (genesisNode ⟨1, 1, 0, false, false, 0, []⟩ 0),
    [⟨⟨4, 3, 2, false, false, 7, []⟩, some ⟨[], 0⟩⟩, ⟨⟨5, 4, 4, false, false, 7, []⟩, some ⟨[1], 1⟩⟩],
    by decide, by decide, by decide⟩
+
+/-! ## a failed adoption changes nothing -/
+
+/-- **failed_adoption_unchanged**: when the state of the common height is no longer retained (the own chain moved on
+between fork validation and `applyFork`, or the ancestor was at the edge of the window) while the canonical block of
+that height is there, `applyFork` answers `err`, hands back nothing and leaves the node exactly as it was — head,
+loaded state, every repository map, every saved version. -/
+theorem failed_adoption_unchanged (E : Env σ) (R : Rules) (n : Node σ) (c : Nat) (bs : List Bundle) (b : Block)
+    (hb : ownBlock n c = some b) (hv : n.vers c = none) : applyFork E R n c bs = (n, .err, []) := by
+  unfold applyFork resetTo ensureCanonical
+  simp only [hb, hv]
+
+/-- whatever makes the rollback fail, the head, the loaded state, the certificates and the saved versions are those
+of before (only a missing canonical header of the target may have been restored) -/
+theorem failed_reset_keeps_head_and_state (n n1 : Node σ) (c : Nat) (h : resetTo n c = .error n1) :
+    n1.head = n.head ∧ n1.cur = n.cur ∧ n1.vers = n.vers ∧ n1.certs = n.certs := by
+  unfold resetTo at h
+  cases he : ensureCanonical n c with
+  | none => rw [he] at h; simp only [Except.error.injEq] at h; subst h; exact ⟨rfl, rfl, rfl, rfl⟩
+  | some n2 =>
+    rw [he] at h; simp only at h
+    obtain ⟨h1, h2, h3, h4⟩ := ensureCanonical_certs he
+    cases hv : n2.vers c with
+    | none => rw [hv] at h; simp only [Except.error.injEq] at h; subst h; exact ⟨h3, h4, h2, h1⟩
+    | some s => rw [hv] at h; cases h
+
+/-- the version of the common height is pruned by the own blocks added after the fork was validated: a node that
+followed `chain` and whose head is `keep` or more above `c` has no version `c` -/
+theorem saveVersion_prunes (vers : Nat → Option σ) (h c : Nat) (s : σ) (hc : c + keep ≤ h) :
+    saveVersion vers h s c = none := by
+  unfold saveVersion
+  have : c ≠ h := by unfold keep at hc; omega
+  simp [this, hc]
 
 /-! ## the resolver returns a verdict on every peer answer -/
 
